@@ -337,8 +337,8 @@ def main():
 def enumerate_small(comp, spec, rng, mexe, iexe, shards):
     """all schedules (<= B pre-emptions / spurious wake-ups, depth D) of small programs, from the model's
     enabled sets, replayed on both sides"""
-    nprog = spec.get('enum_programs', 40)
-    depth, budget, cap = spec.get('enum_depth', 120), spec.get('enum_budget', 2), spec.get('enum_cap', 4000)
+    nprog = spec.get('enum_programs', max(8, 40 // max(1, len(spec.get('components', [1])))))
+    depth, budget, cap = spec.get('enum_depth', 120), spec.get('enum_budget', 2), spec.get('enum_cap', 2500)
     small = []
     gs = getattr(comp, 'gen_small', None)
     tries = 0
